@@ -470,7 +470,7 @@ void chist_exec(const chist *h, int i, vh_obj *ob, ctrans *t, const char *prefix
         if (!(o->flags & F_NULL_IN)) in = a;
         if (!(o->flags & F_NULL_OUT)) {
             if (o->flags & F_INPLACE) { out = a; }
-            else { b = place(2, o, 1, o->len); used_b = 1; memset(b, 0xEE, o->len); out = b; }
+            else { b = place(2, o, 1, o->len); used_b = 1; memset(b, 0xEE, o->len); vh_make_undef(b, o->len); out = b; }
         }
         vh_call_begin("ctr_encrypt"); ret = c->ctr_encrypt(out, in, o->len, obj); vh_call_end();
         if (ret && out && t->out_n + o->len <= H_OUT) {
